@@ -216,7 +216,7 @@ def check(tier, seed):
             c.violation("spanner: " + judge(cases[i], io[i]), {"component": "c15", "case": cases[i], "impl": io[i]}, True)
     return c.finish(
         assumptions=["std::sort returns a weight-sorted permutation (which one is the oracle `scan`, universally quantified in the theorems)",
-                     "the scan order is recovered as 'merge by weight, retained before dropped on ties', which reproduces the same retained/dropped sequences",
+                     "the scan order is recovered as 'merge by weight, retained before dropped on ties'; that this order reproduces the same retained/dropped sequences and is itself a weight-sorted permutation is Properties_C15_scan.C15_recovered_scan_reproduces (the Gallina merge_scan mirrors recover_scan by reading)",
                      "hook: PARMCB_VERIF read-only accessors of BaseApproxSpannerAlgorithm"],
         explanation="Theorem C15 holds for every simple graph, k >= 1 and every sorted scan order; this run compares retained/dropped lists, spanner endpoints "
                     "and spanner weights exactly and judges each answer against the property text (partition, weights, short light paths, girth).")
